@@ -70,7 +70,7 @@ def ev_conn_receiveWindow : List String :=
 def ev_conn_sendHandle : List String :=
   ["switch code", "case pmpx.Code_Batch", "for i < num", "if err != nil", "return status.WrapError(err)", "if !st.OK()", "call c.sendHandle(m1)", "return st", "case pmpx.Code_ChannelClose", "call c.channels.Delete(id)", "if ok", "call ch.free()", "return status.OK"]
 def ev_conn_handshakeAsServer : List String :=
-  ["if !st.OK()", "call c.writer.writeLine(ProtocolLine)", "return st", "call c.reader.readLine()", "if !st.OK()", "return st", "if line != ProtocolLine", "return mpxErrorf(\"invalid protocol, expected %q, got %q\", ProtocolLine, line)", "call c.reader.readRequest()", "if !st.OK()", "return st", "for i < versions.Len()", "if v == pmpx.Version_Version10", "if !ok", "call pmpx.BuildConnectError(\"unsupported protocol versions\")", "if err != nil", "return mpxError(err)", "if !st.OK()", "call c.writer.writeAndFlush(resp)", "return st", "return mpxErrorf(\"client requested unsupported protocol versions\")", "for i < comps.Len()", "if c == pmpx.ConnectCompression_Lz4", "call pmpx.BuildConnectResponse(pmpx.Version_Version10, comp)", "if err != nil", "return mpxError(err)", "if !st.OK()", "call c.writer.writeAndFlush(resp)", "return st", "switch comp", "case pmpx.ConnectCompression_None", "case pmpx.ConnectCompression_Lz4", "if !st.OK()", "call c.reader.initLZ4()", "return st", "if !st.OK()", "call c.writer.initLZ4()", "return st", "call c.handshaked.Set()", "return status.OK"]
+  ["if !st.OK()", "call c.writer.writeLine(ProtocolLine)", "return st", "call c.reader.readLine(len(ProtocolLine))", "if !st.OK()", "return st", "if line != ProtocolLine", "return mpxErrorf(\"invalid protocol, expected %q, got %q\", ProtocolLine, line)", "call c.reader.readRequest()", "if !st.OK()", "return st", "for i < versions.Len()", "if v == pmpx.Version_Version10", "if !ok", "call pmpx.BuildConnectError(\"unsupported protocol versions\")", "if err != nil", "return mpxError(err)", "if !st.OK()", "call c.writer.writeAndFlush(resp)", "return st", "return mpxErrorf(\"client requested unsupported protocol versions\")", "for i < comps.Len()", "if c == pmpx.ConnectCompression_Lz4", "call pmpx.BuildConnectResponse(pmpx.Version_Version10, comp)", "if err != nil", "return mpxError(err)", "if !st.OK()", "call c.writer.writeAndFlush(resp)", "return st", "switch comp", "case pmpx.ConnectCompression_None", "case pmpx.ConnectCompression_Lz4", "if !st.OK()", "call c.reader.initLZ4()", "return st", "if !st.OK()", "call c.writer.initLZ4()", "return st", "call c.handshaked.Set()", "return status.OK"]
 def ev_client_Close : List String :=
   ["call c.mu.Lock()", "call c.mu.Unlock()", "if c.closed_.IsSet()", "call c.closed_.IsSet()", "return status.OK", "call c.closed_.Set()", "if ok", "call c.connecting.Clear()", "call c.conns.Load()", "range conns.conns", "call conn.Close()", "call c.conns.Store(newClientConns())", "call c.connected_.Unset()", "call c.disconnected_.Set()", "return status.OK"]
 def ev_client_conn : List String :=
@@ -87,7 +87,9 @@ def ev_client_connectRecover : List String :=
   ["func-literal", "if e != nil", "call func() int { c.mu.Lock() defer c.mu.Unlock() c.connectAttempt++ return c.connectAttempt }()", "func-literal", "call c.mu.Lock()", "call c.mu.Unlock()", "return c.connectAttempt", "if attempt > 1", "call reconnectTimeout(attempt)", "select-case <-ctx.Wait()", "return nil, ctx.Status()", "select-case <-time.After(timeout)", "call c.connector.connect(ctx, c.addr)", "if !st.OK()", "return nil, st", "call c.handle(conn)", "call c.mu.Lock()", "call c.mu.Unlock()", "if c.closed_.IsSet()", "call c.closed_.IsSet()", "call conn.Close()", "return nil, status.Closedf(\"mpx client closed\")", "call status.Closedf(\"mpx client closed\")", "call c.conns.Load().add(conn)", "call c.conns.Load()", "call c.conns.Store(conns)", "call c.connected_.Set()", "call c.disconnected_.Unset()", "return conn, status.OK"]
 def ev_reconnectTimeout : List String :=
   ["assign multi := uint16(1<<attempt - 2)", "assign timeout := minConnectRetryTimeout * time.Duration(multi)", "return min(timeout, maxConnectRetryTimeout)", "call min(timeout, maxConnectRetryTimeout)"]
+def ev_reader_readLine : List String :=
+  ["assign b := make([]byte, 0, max)", "for len(b) < max", "assign c, err := r.src.ReadByte()", "call r.src.ReadByte()", "if err != nil", "return \"\", mpxError(err)", "assign b = append(b, c)", "if c == '\\n'", "assign s := string(b)", "if debug", "return s, status.OK"]
 def ev_reader_read : List String :=
-  ["if err != nil", "call io.ReadFull(r.reader, head)", "return nil, mpxError(err)", "call binary.BigEndian.Uint32(head)", "call r.buf.Reset()", "call r.buf.Grow(int(size))", "if err != nil", "call io.ReadFull(r.reader, buf)", "return nil, mpxError(err)", "return buf, status.OK"]
+  ["if err != nil", "call io.ReadFull(r.reader, head)", "return nil, mpxError(err)", "call binary.BigEndian.Uint32(head)", "call r.buf.Reset()", "if rem <= maxReadChunk", "call r.buf.Grow(rem)", "if err != nil", "call io.ReadFull(r.reader, buf)", "return nil, mpxError(err)", "return buf, status.OK", "for rem > 0", "call r.buf.Grow(n)", "if err != nil", "call io.ReadFull(r.reader, buf)", "return nil, mpxError(err)", "return r.buf.Bytes(), status.OK"]
 
 end SpecVerif.PinnedMpx
